@@ -37,6 +37,10 @@ class LoopSpec:
     def on_exit(self, I, frame):
         pass
 
+    def after_body(self, I, frame):
+        """called at the end of the arbitrary iteration (after the invariant was re-established)"""
+        pass
+
 
 class Config:
     def __init__(self):
@@ -104,6 +108,7 @@ class Interp:
         self._const_cache = {}
         self._module_ns = {}
         self._loop_ord_cache = {}
+        self.path_errors = []
         self.begin_path([])
 
     # ------------------------------------------------------------------ path management
@@ -136,6 +141,10 @@ class Interp:
                 body(self)
             except PathEnd:
                 pass
+            except PyRaise as pr:
+                # an interpreted exception escaped into the contract code (e.g. a postcondition indexed a value
+                # that turned out empty): this path is undecided, the other paths and obligations still count
+                self.path_errors.append(f"interpreted exception in contract code: {pr.exc!r} decisions={self.decisions}")
             self.paths += 1
             work.extend(self.new_prefixes)
         return n
@@ -194,7 +203,8 @@ class Interp:
             return self.opaque(hint, nonnull=False)
         if isinstance(v, Env):
             return self.opaque(hint, nonnull=v.nonnull)
-        raise Unsupported(f"cannot havoc value of type {type(v).__name__} ({hint})")
+        # objects / containers: an opaque value (sound: nothing is known about it after the havoc)
+        return self.opaque(hint, nonnull=False)
 
     def opaque(self, hint="op", nonnull=True, cls=None):
         self._fresh_n += 1
@@ -297,6 +307,32 @@ class Interp:
         self.solver_ms += ms
         self.queries += 1
         self.records.append(ObRecord(oid, status, backend, ms, self.decisions, model, detail, ftxt))
+        return status == "discharged"
+
+    def lemma(self, oid, formula, hyps=()):
+        """A stated lemma: proved on its own (no path condition, only `hyps`), recorded as an obligation,
+        then assumed on this path.  Used for nonlinear / inductive facts the solver will not find unprompted."""
+        t0 = _time.perf_counter()
+        s = z3.Solver()
+        s.set("timeout", 20000)
+        for h in hyps:
+            s.add(h)
+        s.add(z3.Not(formula))
+        r = s.check()
+        ms = (_time.perf_counter() - t0) * 1000
+        self.solver_ms += ms
+        self.queries += 1
+        if r == z3.unsat:
+            status, backend = "discharged", "z3"
+        elif r == z3.sat:
+            status, backend = "failed", "z3"
+        else:
+            status, backend, _ = smt.second_opinion(s, {})
+        self.records.append(ObRecord(oid, status, backend, ms, self.decisions, None, "lemma", str(formula)[:500]))
+        if status == "discharged":
+            for h in hyps:
+                pass
+            self.assume(z3.Implies(z3.And(*hyps), formula) if hyps else formula)
         return status == "discharged"
 
     def _model_of(self, m):
@@ -608,6 +644,11 @@ class Interp:
                 # x & (2^k - 1) for x >= 0
                 if self.valid(x >= 0):
                     return SV(x % (b + 1), "int")
+            if isinstance(op, ast.BitAnd) and kind == "int" and (isinstance(b, int) or isinstance(a, int)):
+                m, xe = (b, x) if isinstance(b, int) and not isinstance(b, bool) else (a, y)
+                if isinstance(m, int) and m > 0 and (m & (m - 1)) == 0 and self.valid(xe >= 0):
+                    # x & 2^k  ==  ((x div 2^k) mod 2) * 2^k   for x >= 0
+                    return SV(((xe / m) % 2) * m, "int")
             if isinstance(op, (ast.BitAnd, ast.BitOr, ast.BitXor, ast.LShift, ast.RShift)) and kind == "int":
                 bvx, bvy = z3.Int2BV(x, 64), z3.Int2BV(y, 64)
                 if self.valid(z3.And(x >= 0, y >= 0, x < 2 ** 32, y < 2 ** 32)):
@@ -894,6 +935,11 @@ class Interp:
         return BoundBuiltin(v, name)
 
     def setattr(self, v, name, val):
+        if isinstance(v, Obj) and name == "__class__":
+            if isinstance(val, ClassRef):
+                v.cls = val.ci
+                return
+            raise Unsupported("__class__ assignment to a non-class value")
         if isinstance(v, Obj):
             m = v.cls.find(self.repo, name)
             if m is not None and m[0] == "prop":
@@ -1859,11 +1905,22 @@ class Interp:
             self.ob(f"{base}/variant-decreases", z3.And(self._num(v0, "int") >= 0,
                                                         self._num(v1, "int") < self._num(v0, "int"))
                     if not (isinstance(v0, int) and isinstance(v1, int)) else (0 <= v0 and v1 < v0))
+        spec.after_body(self, fr)
         raise PathEnd()
 
     def s_For(self, s, fr):
         it = self.eval(s.iter, fr)
         spec = self.loop_spec(fr, s)
+        if spec is not None and getattr(spec, "skip", False):
+            # abstracted loop: the contract declares (and checks syntactically) that the body only touches state
+            # the property does not depend on; the body is not executed, declared locals are havocked
+            k = self.loop_ordinal(fr, s)
+            self.ob(f"{self.cfg.ob_prefix}{fr.fi.qualname}/loop{k}/frame:{spec.frame_name}", bool(spec.frame_ok(self, s, fr)),
+                    detail="syntactic frame check of an abstracted loop")
+            for nm in self.assigned_names(s.body + [ast.Assign(targets=[s.target], value=ast.Constant(None))]):
+                fr.locals[nm] = self.opaque(nm, nonnull=False)
+            spec.havoc(self, fr)
+            return None
         if hasattr(it, "sym_for"):
             return it.sym_for(self, s, fr, spec)
         if isinstance(it, SymSeq):
@@ -1917,6 +1974,7 @@ class Interp:
             pass
         fr.locals[idx_name] = SV(i.e + 1, "int")
         self.ob(f"{base}/invariant-preserved", spec.invariant(self, fr))
+        spec.after_body(self, fr)
         raise PathEnd()
 
     # ------------------------------------------------------------------ entry points
